@@ -323,7 +323,9 @@ def vcf_case(draw, fmt="vcf", max_records=8, typed=None, decl=None):
             rec.append("GT:DP" if extra else "GT")
             for _s in samples:
                 g = draw(gts)
-                rec.append(g + (":" + str(draw(st.integers(0, 99))) if extra else ""))
+                # a sample may drop its trailing FORMAT sub-fields (the specification allows it): 'GT:DP' declared, './.' given
+                keep_sub = extra and draw(st.integers(0, 3)) != 0
+                rec.append(g + (":" + str(draw(st.one_of(st.integers(0, 99), st.integers(0, 10 ** 9)))) if keep_sub else ""))
         recs.append(rec)
     case = {"fmt": fmt, "records": recs, "crlf": draw(st.booleans()), "final_nl": draw(st.booleans()),
             "header": header}
